@@ -1,0 +1,12 @@
+//go:build verif
+
+package vm
+
+// Read-only accessors used by the verification harness (/verif). Built only with -tags verif.
+
+// VerifRefs returns the current value of the VM's item reference counter.
+func (v *VM) VerifRefs() int { return int(v.refs) }
+
+// VerifGasPico returns the gas consumed so far in the VM's internal unit
+// (picoGAS) and whether it fits uint64.
+func (v *VM) VerifGasPico() (uint64, bool) { return v.gasConsumed.Uint64(), v.gasConsumed.IsUint64() }
